@@ -1,1 +1,18 @@
-fn main() {}
+//! Checks on the API crates: C16 (endpoints over the HTTP wire format) and C19 (string enums).
+use vf_engine::Check;
+
+mod c19;
+
+fn main() {
+    let args: Vec<String> = std::env::args().skip(1).collect();
+    let id = args.first().cloned().unwrap_or_default();
+    let mut ck = Check::from_env(&id, &args[1.min(args.len())..]);
+    match id.as_str() {
+        "C19" => c19::run(&mut ck),
+        _ => {
+            eprintln!("vf-api: unknown property {id}");
+            std::process::exit(2);
+        }
+    }
+    ck.finish()
+}
